@@ -1,16 +1,22 @@
 (* C01 - parsing a well-formed command line recovers exactly the intended values.
 
-   FULL STATEMENT (parse_spells), not proved here:
+   FULL STATEMENT (parse_spells), proved below:
      forall f (d : line description: command-name spellings, option items in the forms --n=v / --n v / -nv / -n v /
-     bare / grouped, positionals, optional "--" tail), wf_line f d = true -> forall lenient,
-       parse lenient f (render d) = Ok (denote f d).
-   What IS proved: the read side (access by long name, short name or position agrees; everything not set
-   reports its default), that nothing after "--" is read as an option, and - shared with C02/C05 - that
-   lenient and strict parsing agree on every line strict parsing accepts and that the result does not depend
-   on the parser object's history.  The functional statement itself is decided by the correspondence run:
-   the model equals the implementation on every generated spelling, and the implementation's result equals
-   the assignment computed independently by the oracle.  Named partial in MANIFEST/DESIGN. *)
-From Clikit Require Import Base.Prelude Base.Res Model.Conv Model.Format Model.Parser Proofs.ParserLemmas.
+     bare / grouped, positionals, optional "--" tail), fmt_ok f = true -> wf_line f d = true -> forall lenient,
+       parse f lenient (render d) = Ok (denote f d).
+   Line descriptions, render, wf_line (the side conditions), denote (the intended assignment) and fmt_ok (the
+   hypothesis on the format: the parser's augmented format is what it is meant to be) are the executable
+   definitions of Model/Spell.v; the proof is in Proofs/SpellOpts.v, SpellArgs.v, SpellLemmas.v.  The three stages
+   of the proof plan (options only; + positionals and "--"; + command names) are all closed; stage 3 is the full
+   statement.  parse_spells_not_vacuous exhibits a format (command names with aliases, required / typed optional /
+   multi-valued arguments, six options of every value mode) and a line using every item form that satisfy the
+   hypotheses.
+   Also proved: the read side (access by long name, short name or position agrees; everything not set reports its
+   default), that nothing after "--" is read as an option, and - shared with C02/C05 - that lenient and strict
+   parsing agree on every line strict parsing accepts and that the result does not depend on the parser object's
+   history. *)
+From Clikit Require Import Base.Prelude Base.Res Model.Conv Model.Format Model.Parser Model.Spell
+     Proofs.ParserLemmas Proofs.SpellDenote Proofs.SpellLemmas.
 
 Theorem access_agrees_options : forall f a n m o,
   get_option f n true = Ok o -> get_option f m true = Ok o -> args_option f a n = args_option f a m.
@@ -51,3 +57,75 @@ Print Assumptions tail_is_never_read_as_options.
 Theorem spelled_lines_mode_independent : forall f toks r, parse f false toks = Ok r -> parse f true toks = Ok r.
 Proof. exact lenient_extends_strict_lemma. Qed.
 Print Assumptions spelled_lines_mode_independent.
+
+(* ---- a well-formed line parses to the assignment it spells ---- *)
+(* stage 1: option items only (all five written forms and grouped short options) *)
+Theorem parse_spells_stage1 : forall f d, fmt_ok f = true -> wf_line f d = true ->
+  no_positionals d = true -> no_names d = true ->
+  forall lenient, parse f lenient (render d) = Ok (denote f d).
+Proof. exact parse_spells_stage1_lemma. Qed.
+Print Assumptions parse_spells_stage1.
+(* stage 2: + positional arguments, interleaved, and the "--" tail *)
+Theorem parse_spells_stage2 : forall f d, fmt_ok f = true -> wf_line f d = true -> no_names d = true ->
+  forall lenient, parse f lenient (render d) = Ok (denote f d).
+Proof. exact parse_spells_stage2_lemma. Qed.
+Print Assumptions parse_spells_stage2.
+(* stage 3 = the full statement: + leading command names or aliases, given or omitted *)
+Theorem parse_spells : forall f d, fmt_ok f = true -> wf_line f d = true ->
+  forall lenient, parse f lenient (render d) = Ok (denote f d).
+Proof. exact parse_spells_lemma. Qed.
+Print Assumptions parse_spells.
+(* the hypotheses are satisfiable, by a format and a line that exercise every clause *)
+Theorem parse_spells_not_vacuous :
+  fmt_ok SpellExamples.F1 = true /\ wf_line SpellExamples.F1 SpellExamples.D1 = true /\
+  fmt_ok SpellExamples.F2 = true /\ wf_line SpellExamples.F2 SpellExamples.D1 = true.
+Proof. exact (conj SpellExamples.F1_ok (conj SpellExamples.D1_wf (conj SpellExamples.F2_ok (proj1 SpellExamples.D1_parses_over_base)))). Qed.
+Print Assumptions parse_spells_not_vacuous.
+Theorem spelling_parses : forall f asg line, fmt_ok f = true -> spells f asg line ->
+  forall lenient, parse f lenient line = Ok asg.
+Proof. exact spells_parse. Qed.
+Print Assumptions spelling_parses.
+
+(* ---- what the spelled assignment [denote f d] reports through the read side of Args ---- *)
+(* marks as set exactly what was given *)
+Theorem spelled_options_marked_set : forall f d n o, get_option f n true = Ok o -> has_option f n true = true ->
+  args_is_option_set f (denote f d) n = mentions (o_long o) (events d).
+Proof. exact denote_option_set. Qed.
+Print Assumptions spelled_options_marked_set.
+(* reports the declared default for every option not given *)
+Theorem unspelled_option_default : forall f d n o, get_option f n true = Ok o ->
+  mentions (o_long o) (events d) = false -> args_option f (denote f d) n = Ok (opt_default_value o).
+Proof. exact denote_option_unset. Qed.
+Print Assumptions unspelled_option_default.
+(* a single-valued option reports the converted value of its last occurrence (True for a flag, the converted
+   default for an omitted optional value) *)
+Theorem spelled_single_option : forall f d n o es1 e es2, get_option f n true = Ok o ->
+  events d = es1 ++ e :: es2 -> ev_key e = o_long o -> mentions (o_long o) es2 = false ->
+  (match snd e with GText _ => o_multi (fst e) = false | _ => True end) ->
+  args_option f (denote f d) n = Ok (event_value e).
+Proof. exact denote_option_single. Qed.
+Print Assumptions spelled_single_option.
+(* a multi-valued option reports all its values, converted, in line order *)
+Theorem spelled_multi_option : forall f d n o, fmt_ok f = true -> wf_line f d = true ->
+  get_option f n true = Ok o -> get_option f (o_long o) true = Ok o ->
+  o_multi o = true -> mentions (o_long o) (events d) = true ->
+  args_option f (denote f d) n = Ok (VList (map (fun s => conv_opt o (VStr s)) (texts_of (o_long o) (events d)))).
+Proof. exact spelled_multi_option_lemma. Qed.
+Print Assumptions spelled_multi_option.
+(* the i-th declared argument, by name or by position: set iff a value reached it; reports the converted value
+   (all remaining values for a multi-valued argument) or the declared default *)
+Theorem spelled_argument_set : forall f d i a r, fmt_ok f = true -> wf_line f d = true ->
+  nth_error (get_arguments_all f) i = Some (a_name a, a) ->
+  get_argument f r true = Ok a -> has_argument f r true = true ->
+  args_is_argument_set f (denote f d) r = (i <? length (values d)).
+Proof. exact spelled_argument_set_lemma. Qed.
+Print Assumptions spelled_argument_set.
+Theorem spelled_argument_value : forall f d i a r, fmt_ok f = true -> wf_line f d = true ->
+  nth_error (get_arguments_all f) i = Some (a_name a, a) ->
+  get_argument f r true = Ok a -> has_argument f r true = true ->
+  args_argument f (denote f d) r =
+  Ok (if i <? length (values d)
+      then (if a_multi a then VList (map (conv_arg a) (skipn i (values d))) else conv_arg a (nth i (values d) []))
+      else a_default a).
+Proof. exact spelled_argument_value_lemma. Qed.
+Print Assumptions spelled_argument_value.
